@@ -281,6 +281,12 @@ class HTTPRequestParser:
             if connection.lower() != "keep-alive":
                 self.connection_close = True
 
+        if version != "1.1" and "TRANSFER_ENCODING" in headers:
+            # RFC 9112 6.1: the framing of a message that carries
+            # Transfer-Encoding but is not HTTP/1.1 is faulty; the connection
+            # must be closed after it has been processed
+            self.connection_close = True
+
         if version == "1.1":
             # since the server buffers data from chunked transfers and clients
             # never need to deal with chunked requests, downstream clients
